@@ -557,6 +557,43 @@ func c04f(c *Ctx) {
 	if fn == nil {
 		return
 	}
+	// completeness: the order is handed back only when it is as long as the table of chunks (or
+	// the table is empty). With every listed id taken out of the not-yet-listed set (below), an
+	// order of that length lists every chunk.
+	for i, r := range returnsOf(fn) {
+		okR := false
+		var lits []string
+		for _, l := range c.mustLits(fn, r.Block()) {
+			l = verRe.ReplaceAllString(l, "")
+			lits = append(lits, l)
+			if regexpMust(`^-\(builtin:len\(.*\) < builtin:len\(\$0\)\)$`).MatchString(l) || l == "+(builtin:len($0) == 0)" || l == "-(0 < builtin:len($0))" || l == "+(builtin:len($0) <= 0)" {
+				okR = true
+			}
+		}
+		if !okR {
+			// the block after the loop: entered only from the loop test `len(order) < len(chunks)` failing
+			b := r.Block()
+			okR = len(b.Preds) > 0
+			for _, p := range b.Preds {
+				ifi, isIf := p.Instrs[len(p.Instrs)-1].(*ssa.If)
+				if !isIf || len(p.Succs) != 2 || p.Succs[1] != b {
+					okR = false
+					continue
+				}
+				t := verRe.ReplaceAllString(c.term(fn, ifi.Cond), "")
+				if !regexpMust(`^\(builtin:len\(.*\) < builtin:len\(\$0\)\)$`).MatchString(t) {
+					okR = false
+				}
+				// what is measured is what is returned
+				if bo, isB := ifi.Cond.(*ssa.BinOp); isB {
+					if lc, isC := bo.X.(*ssa.Call); !isC || len(lc.Call.Args) != 1 || lc.Call.Args[0] != r.Results[0] {
+						okR = false
+					}
+				}
+			}
+		}
+		c.Check(okR, fmt.Sprintf("optimizeChunkOrder/complete-at-return#%d", i), c.W.Pos(r.Pos()), "the order is returned only once it has as many entries as there are chunks", "optimizeChunkOrder can return under ["+strings.Join(lits, " ")+"] — not known to be the point where the order is as long as the chunk table: chunks could be left out of the optimised output")
+	}
 	n := 0
 	for _, ci := range callsIn(fn) {
 		call, ok := ci.(*ssa.Call)
